@@ -16,17 +16,68 @@ PID = 'C10'
 F = 'AegeanTools/MIMAS.py'
 
 
+class NanVal:
+    """a pixel: an opaque value (z3 Real) that may be blank (z3 Bool); blanking under a condition is an ite on the flag"""
+    def __init__(self, v, nan):
+        self.v, self.nan = v, nan
+
+    def isnan_sb(self):
+        return SB(self.nan)
+
+    def blank_if(self, cond):
+        return NanVal(self.v, z3.Or(self.nan, cond))
+
+
 class SymArray(real_np.ndarray):
-    """object ndarray whose boolean-mask assignment accepts SB masks and applies them element-wise as ite"""
-    def __setitem__(self, idx, val):
-        if isinstance(idx, real_np.ndarray) and idx.dtype == object:
-            for k in real_np.ndindex(idx.shape):
-                old = real_np.ndarray.__getitem__(self, k)
-                cond = idx[k]
-                cond = cond.e if isinstance(cond, SB) else z3.BoolVal(bool(cond))
-                real_np.ndarray.__setitem__(self, k, ('ite', cond, val, old))
-        else:
-            real_np.ndarray.__setitem__(self, idx, val)
+    """object ndarray of NanVal whose (boolean-mask) assignment of NaN accepts SB masks, also inside tuple keys"""
+    def __setitem__(self, key, val):
+        isnanval = isinstance(val, float) and val != val
+        keys = key if isinstance(key, tuple) else (key,)
+        symmask = [k for k in keys if isinstance(k, real_np.ndarray) and k.dtype == object]
+        if not isnanval or (not symmask and not any(isinstance(k, real_np.ndarray) and k.dtype == bool for k in keys)):
+            if isnanval:
+                # plain (slice / integer) assignment of NaN
+                idx = real_np.arange(self.size).reshape(self.shape)[key]
+                for flat in real_np.atleast_1d(idx).ravel():
+                    pos = real_np.unravel_index(int(flat), self.shape)
+                    real_np.ndarray.__setitem__(self, pos, real_np.ndarray.__getitem__(self, pos).blank_if(z3.BoolVal(True)))
+                return
+            real_np.ndarray.__setitem__(self, key, val)
+            return
+        idx = real_np.arange(self.size).reshape(self.shape)
+        masks = [(n, k) for n, k in enumerate(keys) if isinstance(k, real_np.ndarray) and k.dtype in (object, bool)]
+        if len(masks) != 1:
+            raise core.Unsupported('assignment with %d mask arrays' % len(masks))
+        n, M = masks[0]
+        for p in real_np.ndindex(M.shape):
+            cond = M[p]
+            cond = cond.e if isinstance(cond, SB) else z3.BoolVal(bool(cond))
+            if z3.is_false(z3.simplify(cond)):
+                continue
+            ck = keys[:n] + tuple(int(x) for x in p) + keys[n + 1:]
+            sel = idx[ck]
+            for flat in real_np.atleast_1d(sel).ravel():
+                pos = real_np.unravel_index(int(flat), self.shape)
+                real_np.ndarray.__setitem__(self, pos, real_np.ndarray.__getitem__(self, pos).blank_if(cond))
+
+
+class NP(loader.NPProxy):
+    def isnan(self, a):
+        if isinstance(a, real_np.ndarray) and a.dtype == object:
+            out = real_np.empty(a.shape, dtype=object)
+            for k in real_np.ndindex(a.shape):
+                v = real_np.ndarray.__getitem__(a, k) if isinstance(a, SymArray) else a[k]
+                out[k] = v.isnan_sb() if isinstance(v, NanVal) else bool(v != v)
+            return out
+        return loader.NPProxy.isnan(self, a)
+
+    def isfinite(self, a):
+        if isinstance(a, real_np.ndarray) and a.dtype == object:
+            out = self.isnan(a)
+            for k in real_np.ndindex(out.shape):
+                out[k] = ~out[k] if isinstance(out[k], SB) else (not out[k])
+            return out
+        return loader.NPProxy.isfinite(self, a)
 
 
 class Region(I.UFRegion):
@@ -45,37 +96,38 @@ class Region(I.UFRegion):
 def sym_mimas():
     mods = loader.load_private(['regions', 'catalogs', 'MIMAS'])
     mim = mods['MIMAS']
-    loader.patch(mim, builtins=False)
+    loader.patch(mim, np=NP(), builtins=False)
     return mim
 
 
 def mkdata(shape, prefix='px'):
+    """every pixel has an opaque symbolic value and a symbolic "was already blank" flag"""
     data = real_np.empty(shape, dtype=object).view(SymArray)
     for k in real_np.ndindex(shape):
-        real_np.ndarray.__setitem__(data, k, ('px',) + k)
+        nm = '_'.join(str(x) for x in k)
+        real_np.ndarray.__setitem__(data, k, NanVal(z3.Real('%s_%s' % (prefix, nm)), z3.Bool('nan_%s' % nm)))
     return data
 
 
 def plane_claims(c, tag, out, plane_idx, R, C, negate, labels=None):
+    """labels: array mapping an output index to the ORIGINAL index of that pixel (after squeezing)"""
     cl_mask = []
     cl_keep = []
     for i in range(R):
         for j in range(C):
             k = plane_idx + (i, j)
             v = real_np.ndarray.__getitem__(out, k)
-            lab = ('px',) + k if labels is None else labels[k]
+            orig = k if labels is None else labels[k]
+            nm = '_'.join(str(x) for x in orig)
             inside = I.inside_pixel(i, j)
             want_blank = inside if negate else z3.Not(inside)
-            if isinstance(v, tuple) and v[0] == 'ite':
-                blank_is_nan = isinstance(v[2], float) and v[2] != v[2]
-                cl_mask.append(v[1] == want_blank if blank_is_nan else z3.BoolVal(False))
-                cl_keep.append(z3.BoolVal(v[3] == lab))
-            else:
-                # untouched element: must never need blanking
-                cl_mask.append(z3.Not(want_blank))
-                cl_keep.append(z3.BoolVal(v == lab))
-    c.oblige(tag + ':blanked <=> pixel centre %s the region' % ('inside' if negate else 'outside'), z3.And(cl_mask))
-    c.oblige(tag + ':other pixel values unchanged', z3.And(cl_keep))
+            if not isinstance(v, NanVal):
+                cl_mask.append(z3.BoolVal(False))
+                continue
+            cl_mask.append(v.nan == z3.Or(z3.Bool('nan_%s' % nm), want_blank))
+            cl_keep.append(v.v == z3.Real('px_%s' % nm))
+    c.oblige(tag + ':blank afterwards <=> blank before or pixel centre %s the region' % ('inside' if negate else 'outside'), z3.And(cl_mask))
+    c.oblige(tag + ':other pixel values unchanged', z3.And(cl_keep) if cl_keep else z3.BoolVal(True))
 
 
 def h_plane(mim, R, C, negate):
@@ -137,7 +189,7 @@ def h_file(mim, shape, negate):
         out = written[0]
         labels = real_np.empty(shape, dtype=object)
         for k in real_np.ndindex(shape):
-            labels[k] = ('px',) + k
+            labels[k] = k
         labels = real_np.squeeze(labels) if len(shape) > 2 else labels
         sq = [n for n in shape if n != 1]
         c.oblige(tag + ':data squeezed to planes', z3.BoolVal(list(out.shape) == sq or list(out.shape) == list(shape)))
@@ -232,6 +284,51 @@ def oracle_plane(R=30, C=40, negate=False, planes=0):
     return False, None, None
 
 
+def oracle_file(negate=False, R=12, C=15):
+    """real mask_file on a 3-plane cube with pre-existing blanks that differ between planes"""
+    import os
+    import shutil
+    import tempfile
+    from astropy.io import fits
+    from astropy.wcs import WCS
+    mim = loader.real('MIMAS')
+    regions = loader.real('regions')
+    d = tempfile.mkdtemp(prefix='c10_', dir='/var/tmp')
+    try:
+        hdr = fits.Header()
+        hdr['CTYPE1'], hdr['CTYPE2'] = 'RA---SIN', 'DEC--SIN'
+        hdr['CRVAL1'], hdr['CRVAL2'] = 120.0, -35.0
+        hdr['CRPIX1'], hdr['CRPIX2'] = C / 2.0, R / 2.0
+        hdr['CDELT1'], hdr['CDELT2'] = -4.0 / 60, 4.0 / 60
+        data = real_np.arange(3 * R * C, dtype=float).reshape(3, R, C) + 1
+        data[0, 2, 3] = real_np.nan
+        data[0, R // 2, C // 2] = real_np.nan
+        data[1, 5, 1] = real_np.nan
+        data[2, R // 2, C // 2 + 1] = real_np.nan
+        fn, rf, of = os.path.join(d, 'in.fits'), os.path.join(d, 'r.mim'), os.path.join(d, 'out.fits')
+        fits.PrimaryHDU(data, header=hdr).writeto(fn)
+        reg = regions.Region(maxdepth=12)
+        reg.add_circles(real_np.radians(120.0), real_np.radians(-35.0), real_np.radians(0.25))
+        reg.save(rf)
+        mim.mask_file(rf, fn, of, negate=negate)
+        out = fits.getdata(of)
+        wcs = WCS(hdr, naxis=2)
+        jj, ii = real_np.meshgrid(real_np.arange(C), real_np.arange(R))
+        sky = wcs.all_pix2world(real_np.column_stack([jj.ravel(), ii.ravel()]), 0)
+        inside = reg.sky_within(sky[:, 0], sky[:, 1], degin=True).reshape(R, C)
+        blank = inside if negate else ~inside
+        for p in range(3):
+            want_nan = ~real_np.isfinite(data[p]) | blank
+            got_nan = ~real_np.isfinite(out[p])
+            if (want_nan != got_nan).any():
+                return True, 'plane-mask', 'plane %d of a 3x%dx%d cube: %d pixels blanked differently from "blank before or outside the region" (negate=%s)' % (p, R, C, int((want_nan != got_nan).sum()), negate)
+            if not real_np.array_equal(out[p][~got_nan], data[p][~got_nan]):
+                return True, 'values-changed', 'plane %d: unmasked values changed' % p
+        return False, None, None
+    finally:
+        shutil.rmtree(d, ignore_errors=True)
+
+
 def oracle_table(negate=False):
     from astropy.table import Table
     mim = loader.real('MIMAS')
@@ -283,8 +380,12 @@ def run(rep):
                 for ob in r['obligations']:
                     rep.count(ob['result'], ob['name'])
                     if ob['result'] == 'sat':
-                        bad, cls, detail = oracle_plane(negate=neg)
-                        rep.finding('C10/K-mask_file/%s' % (cls or ob['name'].split(':')[-1]), dict(kind='plane', negate=neg), detail or ob['name'], reproduced=bad)
+                        bad, cls, detail = oracle_file(negate=neg)
+                        kind = 'file'
+                        if not bad:
+                            bad, cls, detail = oracle_plane(negate=neg)
+                            kind = 'plane'
+                        rep.finding('C10/K-mask_file/%s' % (cls or ob['name'].split(':')[-1]), dict(kind=kind, negate=neg), detail or ob['name'], reproduced=bad)
     rep.end_kernel()
     rep.kernel('K-mask_table', functions=[F + ':mask_table'], bounds='tables of 0-4 rows, every single undefined-coordinate row position, negate on/off, default and custom column names',
                stubs=['astropy Table -> recorder (column access, boolean row selection)', 'region -> uninterpreted Inside; non-finite never inside'])
@@ -307,7 +408,7 @@ def run(rep):
     rep.end_kernel()
     # executor validation / property-level runs on the real code
     for neg in (False, True):
-        for fn, kind, k in ((oracle_plane, 'plane', 'K-mask_plane'), (oracle_table, 'table', 'K-mask_table')):
+        for fn, kind, k in ((oracle_plane, 'plane', 'K-mask_plane'), (oracle_table, 'table', 'K-mask_table'), (oracle_file, 'file', 'K-mask_file')):
             bad, cls, detail = fn(negate=neg)
             rep.validated_runs(1)
             if bad:
@@ -317,7 +418,8 @@ def run(rep):
 
 def replay(w):
     wit = w['witness']
-    bad, cls, detail = (oracle_plane(negate=bool(wit.get('negate'))) if wit.get('kind') == 'plane' else oracle_table(bool(wit.get('negate'))))
+    fn = {'plane': oracle_plane, 'file': oracle_file}.get(wit.get('kind'), oracle_table)
+    bad, cls, detail = fn(negate=bool(wit.get('negate')))
     return bad, '%s: %s' % (cls, detail)
 
 
